@@ -1,5 +1,6 @@
 import TaskModel.Sched.Model
 import TaskModel.Sched.Monitors
+import TaskModel.Sched.Verdicts
 import Driver.Util
 /-!
 `sched.run F <cap|-> <parallel> <force> <forceAll> <yes> <maxCalls>
@@ -129,7 +130,7 @@ def replayIdx (Pg : Program) (F : Flags) : Config → List Label → Nat → Exc
 def doRun (args : List String) : Option String := do
   let (cs, restToks) ← parseCase.run args
   if !restToks.isEmpty then none else
-  let verdicts := monitorVerdicts cs.prog cs.F cs.calls cs.trace
+  let verdicts := monitorVerdicts2 cs.prog cs.F cs.calls cs.trace
   match replayIdx cs.prog cs.F (init cs.calls.length) cs.trace 0 with
   | .error i => some s!"reject step={i} {verdicts}"
   | .ok c =>
